@@ -200,6 +200,44 @@ def gadget_pi_filters(facts, key='simplify::remove_gadget_pi'):
     return atoms, pair_ok, applied
 
 
+def gadget_pi_point(facts, key='simplify::remove_gadget_pi'):
+    """the loop form of the selection: must-facts at the point where `map.insert(centre, leaf)` records a pair, renamed to the filter-chain vocabulary
+    (leaf / centre).  -> (atoms, pair_ok)"""
+    eng = rmatch.Engine(facts)
+    rec = []
+
+    def is_record(s_):
+        s_ = hir.strip(s_)
+        ok = s_.get('k') == 'MethodCall' and s_['name'] == 'insert' and len(s_['args']) == 2 and all(hir.local(a) for a in s_['args'])
+        if ok:
+            rec.append(s_)
+        return ok
+    ds, cx = eng.facts_at(key, is_record)
+    if not ds or not rec:
+        return set(), False
+    leaf_name = hir.local(rec[0]['args'][1])[0]
+    leaf, centre = V(leaf_name), ('first_nbr', V(leaf_name))
+
+    def ren(t):
+        if t == leaf:
+            return V('leaf')
+        if t == centre:
+            return V('centre')
+        if isinstance(t, tuple):
+            return tuple(ren(x) for x in t)
+        return t
+    common = None
+    for d in ds:
+        lits = set((pol, ren(a)) for pol, a in closure_lits(d))
+        common = lits if common is None else (common & lits)
+    # the first argument of insert must be the leaf's first neighbour
+    try:
+        pair_ok = eng.term(rec[0]['args'][0], cx, set()) == centre
+    except Exception:
+        pair_ok = False
+    return common or set(), pair_ok
+
+
 def fuse_effect(facts, key='simplify::fuse_gadgets'):
     """the fusion loop of fuse_gadgets: for a group of `num` gadgets on the same `degree` targets, all but the first are removed (hub and leaf), the sum of
     their leaf phases is added to the leaf of the first, and the scalar gets sqrt2^(-(num-1)(degree-1)).  [(slot, ok, msg)]"""
@@ -401,13 +439,18 @@ def _d2(ck, facts):
                   'a gadget is recorded for fusion without establishing `%s`: fusing it changes the linear map' % name, sample={'conjunct': name, 'paths_to_point': len(ds)})
     ck.fn('simplify::remove_gadget_pi')
     atoms, pair_ok, applied = gadget_pi_filters(facts)
+    if not atoms:
+        # no filter chain: the same selection written as a loop — facts at the point where a (centre, leaf) pair is recorded in the map
+        atoms, pair_ok = gadget_pi_point(facts)
+    found_shape = bool(atoms)
     need = [('leaf deg=1', (True, ('deg', V('leaf'), 1))), ('leaf ty=Z', (True, ('ty', V('leaf'), Z))), ('centre ty=Z', (True, ('ty', V('centre'), Z))),
             ('centre phase pi', (True, ('phase', V('centre'), 'one')))]
     for name, atom in need:
-        ck.ob('R-MATCH-point', 'simplify::remove_gadget_pi/' + name, atom in atoms, ck.site('simplify::remove_gadget_pi'), 'the filter chain does not establish `%s` for the leaves pi-copy is applied to' % name)
+        ck.ob3('R-MATCH-point', 'simplify::remove_gadget_pi/' + name, (atom in atoms) if found_shape else None, ck.site('simplify::remove_gadget_pi'),
+               ('the selection does not establish `%s` for the leaves pi-copy is applied to' % name) if found_shape else 'neither a filter chain nor a point where (centre, leaf) pairs are recorded was found: how the leaves are selected is not understood')
     ety_ok = any((True, ('etype', a, b, H)) in atoms for a, b in ((V('leaf'), V('centre')), (V('centre'), V('leaf'))))
-    ck.ob('R-MATCH-point', 'simplify::remove_gadget_pi/etype(leaf,centre)=H', ety_ok, ck.site('simplify::remove_gadget_pi'), 'the filter chain does not require the leaf\'s single leg to be a Hadamard edge (pi-copy through a plain Z-Z edge is unsound)')
-    ck.ob('R-MATCH-point', 'simplify::remove_gadget_pi/pairs-centre-with-leaf', pair_ok and len(applied) == 1, ck.site('simplify::remove_gadget_pi'), 'the (centre, leaf) pairing or the single pi_copy_unchecked application is no longer recognised')
+    ck.ob3('R-MATCH-point', 'simplify::remove_gadget_pi/etype(leaf,centre)=H', ety_ok if found_shape else None, ck.site('simplify::remove_gadget_pi'), 'the selection does not require the leaf\'s single leg to be a Hadamard edge (pi-copy through a plain Z-Z edge is unsound)')
+    ck.ob3('R-MATCH-point', 'simplify::remove_gadget_pi/pairs-centre-with-leaf', True if (pair_ok and len(applied) == 1) else None, ck.site('simplify::remove_gadget_pi'), 'the (centre, leaf) pairing or the single pi_copy_unchecked application is not recognised')
 
     for slot, ok, msg in fuse_effect(facts):
         ck.ob3('R-EFFECT-fuse', 'simplify::fuse_gadgets/' + slot, ok, ck.site('simplify::fuse_gadgets'), msg)
